@@ -506,17 +506,22 @@ func c01List(c *Ctx, r *Report, a *Anchors) {
 			key += fmt.Sprintf(" #%d", perArm[arm])
 		}
 		pos := appends[0].Pos()
-		// exactly one append, dominating every latch
-		one := len(appends) == 1
-		dom := one
-		if one {
-			for _, lt := range l.latches {
-				if !appends[0].Block().Dominates(lt) {
-					dom = false
+		// exactly one element appended on every path through the body: the list carried round the loop
+		// is, on every back edge, the list at the header plus exactly one append
+		okOne, why1 := oneAppendPerIteration(l)
+		if !okOne {
+			// the older form of the test: a single append that dominates every latch
+			one := len(appends) == 1
+			if one {
+				for _, lt := range l.latches {
+					if !appends[0].Block().Dominates(lt) {
+						one = false
+					}
 				}
 			}
+			okOne = one
 		}
-		r.check("C01.LIST", key+": exactly one result element appended on every path through the body", pos, one && dom, fmt.Sprintf("%d append(s) to the result list in the body; the append must dominate every back edge so that a failed or nil element still occupies its position", len(appends)))
+		r.check("C01.LIST", key+": exactly one result element appended on every path through the body", pos, okOne, fmt.Sprintf("%d append(s) to the result list in the body, %s: a failed or nil element must still occupy its position, and no element may occupy two", len(appends), why1))
 		ind := loopInduction(l)
 		okInd := ind.ok && isLengthValue(ind.length)
 		why := ind.why
@@ -557,6 +562,112 @@ func c01List(c *Ctx, r *Report, a *Anchors) {
 		}
 	}
 	r.floor("C01.LIST", "result-building loops in the list resolver", n, 3)
+}
+
+// oneAppendPerIteration: some []interface{} value is carried round the loop through a phi at the header, and
+// on every back edge it is that phi plus exactly one single-element append, whatever path the body took.
+func oneAppendPerIteration(l *loopInfo) (bool, string) {
+	isLatch := map[*ssa.BasicBlock]bool{}
+	for _, lt := range l.latches {
+		isLatch[lt] = true
+	}
+	found := false
+	for _, in := range l.head.Instrs {
+		phi, ok := in.(*ssa.Phi)
+		if !ok {
+			break
+		}
+		sl, ok := phi.Type().Underlying().(*types.Slice)
+		if !ok {
+			continue
+		}
+		if it, ok := sl.Elem().Underlying().(*types.Interface); !ok || it.NumMethods() != 0 {
+			continue
+		}
+		memo := map[ssa.Value]map[int]bool{}
+		onStack := map[ssa.Value]bool{}
+		var depth func(v ssa.Value) (map[int]bool, bool)
+		depth = func(v ssa.Value) (map[int]bool, bool) {
+			if v == ssa.Value(phi) {
+				return map[int]bool{0: true}, true
+			}
+			if m, ok := memo[v]; ok {
+				return m, m != nil
+			}
+			if onStack[v] {
+				return nil, false
+			}
+			onStack[v] = true
+			defer func() { onStack[v] = false }()
+			var out map[int]bool
+			switch t := v.(type) {
+			case *ssa.Phi:
+				out = map[int]bool{}
+				for _, e := range t.Edges {
+					m, ok := depth(e)
+					if !ok {
+						out = nil
+						break
+					}
+					for k := range m {
+						out[k] = true
+					}
+				}
+			case *ssa.Call:
+				// append(x, e) reaches go/ssa as append(x, <slice of a one-element array>)
+				if isBuiltinCall(t, "append") && len(t.Call.Args) == 2 {
+					if elems, ok := sliceLitElems(t.Call.Args[1]); ok {
+						if m, ok := depth(t.Call.Args[0]); ok {
+							out = map[int]bool{}
+							for k := range m {
+								out[k+len(elems)] = true
+							}
+						}
+					}
+				}
+			case *ssa.ChangeType:
+				out, _ = depth(t.X)
+			}
+			memo[v] = out
+			return out, out != nil
+		}
+		all := true
+		why := ""
+		n := 0
+		for i, pred := range l.head.Preds {
+			if !isLatch[pred] {
+				continue
+			}
+			n++
+			m, ok := depth(phi.Edges[i])
+			if !ok {
+				all = false
+				why = "the list carried round the loop is not the header's list extended by appends on every path"
+				break
+			}
+			if len(m) != 1 || !m[1] {
+				all = false
+				var ks []int
+				for k := range m {
+					ks = append(ks, k)
+				}
+				sort.Ints(ks)
+				why = fmt.Sprintf("the paths through the body append %v elements", ks)
+				break
+			}
+		}
+		if n == 0 {
+			continue
+		}
+		found = true
+		if !all {
+			return false, why
+		}
+	}
+	if !found {
+		return false, "no result list carried round the loop"
+	}
+	return true, "one on every path"
 }
 
 // armOf describes the type-switch arm a block belongs to.
